@@ -425,6 +425,26 @@ class FakeCanvas:
             yield list(row)
 
 
+class InterruptingCanvas:
+    """delegates to a canvas; SIGWINCH (the screen's handler) is delivered while row k is being produced"""
+
+    def __init__(self, canvas, scr, k):
+        self._canvas, self._scr, self._k = canvas, scr, k
+        self.cursor = canvas.cursor
+
+    def rows(self):
+        return self._canvas.rows()
+
+    def cols(self):
+        return self._canvas.cols()
+
+    def content(self, *args, **kwargs):
+        for y, row in enumerate(self._canvas.content(*args, **kwargs)):
+            if y == self._k:
+                self._scr._sigwinch_handler()
+            yield row
+
+
 def make_screen(case):
     import urwid
     from urwid.display import raw
@@ -450,9 +470,15 @@ def make_screen(case):
     scr.fg_bright_is_bold = not bool(case["bib"])      # force the re-registration below
     scr.bg_bright_is_blink = bool(case.get("bbb"))
     scr.back_color_erase = bool(case["bce"])
-    scr.set_terminal_properties(colors=case["colors"], bright_is_bold=bool(case["bib"]))
-    scr.register_palette([tuple(p) for p in case.get("palette", [])])
+    if case.get("props_late"):
+        # the palette is registered at the default depth, the terminal properties are set afterwards
+        scr.register_palette([tuple(p) for p in case.get("palette", [])])
+        scr.set_terminal_properties(colors=case["colors"], bright_is_bold=bool(case["bib"]))
+    else:
+        scr.set_terminal_properties(colors=case["colors"], bright_is_bold=bool(case["bib"]))
+        scr.register_palette([tuple(p) for p in case.get("palette", [])])
     scr._started = True
+    scr._c04_palette = {p[0]: p for p in case.get("palette", [])}
     if case.get("partial"):
         scr._rows_used = 0
     return scr
@@ -620,8 +646,12 @@ def run_history(case, with_html=True):
             content = [list(r) for r in canvas.content()] if not fr.get("badrows") else None
             err = None
             resized = bool(scr._resized)
+            drawn = canvas
+            if fr.get("intr") is not None:
+                drawn = InterruptingCanvas(canvas, scr, fr["intr"])
+                resized = True          # nothing is painted, nothing is demanded
             try:
-                scr.draw_screen((cols, rows + (1 if fr.get("badrows") else 0)), canvas)
+                scr.draw_screen((cols, rows + (1 if fr.get("badrows") else 0)), drawn)
             except (ValueError, IndexError, TypeError, KeyError, RuntimeError, AssertionError, UnicodeError) as e:
                 err = type(e).__name__
             data = scr.take()
@@ -639,7 +669,7 @@ def run_history(case, with_html=True):
                 fo["err"] = err
             frames_out.append(fo)
             aux["frames"].append(rec)
-            if not err:
+            if not err and fr.get("intr") is None:
                 prev_canvas = canvas
         aux["term"] = term
         return {"frames": frames_out}, aux
@@ -650,14 +680,41 @@ def run_history(case, with_html=True):
 # ----------------------------------------------------------------------------------------------
 # what the property demands: canvas content -> expected cells
 # ----------------------------------------------------------------------------------------------
+def palette_spec(entry, colors):
+    """the AttrSpec a palette entry (name, fg, bg, mono, fg_high, bg_high) stands for at a colour depth, written from
+    the documentation of register_palette_entry: 16 colours -> fg/bg; monochrome -> mono; 256 / 2**24 -> the high
+    colours (default: fg/bg); 88 colours -> the high colours unless one of them is 'hN' with N > 15 (those differ
+    between 88 and 256 colours), then fg/bg"""
+    from urwid.display.common import AttrSpec
+    _name, fg, bg = entry[0], entry[1], entry[2]
+    mono = entry[3] if len(entry) > 3 and entry[3] is not None else "default"
+    fgh = entry[4] if len(entry) > 4 and entry[4] is not None else fg
+    bgh = entry[5] if len(entry) > 5 and entry[5] is not None else bg
+    if colors == 16:
+        return AttrSpec(fg, bg, 16)
+    if colors == 1:
+        return AttrSpec(mono or "default", "default", 1)
+    if colors == 88:
+        def large(desc):
+            first = desc.split(",")[0].strip()
+            return first.startswith("h") and first[1:].isdigit() and int(first[1:]) > 15
+        if large(fgh) or large(bgh):
+            return AttrSpec(fg, bg, 16)
+        return AttrSpec(fgh, bgh, 88)
+    return AttrSpec(fgh, bgh, colors)
+
+
 def expected_attr(a, scr):
-    """(fg, bg, flags) a correct display shows for canvas attribute a - from the AttrSpec properties"""
+    """(fg, bg, flags) a correct display shows for canvas attribute a - from the palette definition / the AttrSpec"""
     from urwid.display.common import AttrSpec
     if isinstance(a, AttrSpec):
         sp = a
     else:
-        ent = scr._palette.get(a) if isinstance(a, (str, type(None))) else None
-        sp = ent[COLOR_IDX[scr.colors]] if ent is not None else AttrSpec("default", "default")
+        ent = getattr(scr, "_c04_palette", {}).get(a) if isinstance(a, str) else None
+        if ent is not None:
+            sp = palette_spec(ent, scr.colors)
+        else:
+            sp = AttrSpec("default", "default")
 
     def col(basic, high, true, num, rgb):
         if true:
@@ -883,6 +940,9 @@ PALETTE = [
     ["k", "light green,strikethrough", "default", "strikethrough", "#0f0,strikethrough", "default"],
     ["b", "light blue,italics", "dark gray", "bold", "h12,blink", "h8"],
     ["g", "black", "dark green", "", "g19", "#080"],
+    ["u", "dark red", "default", "standout", "#f00,underline", "default"],      # standout / underline only at some depths
+    ["h", "dark green", "black", "", "h15", "h0"],                               # largest hN still used at 88 colours
+    ["i", "dark cyan", "brown", "underline", "h16,bold", "h15"],                 # smallest hN that falls back to fg/bg at 88
 ]
 
 
@@ -1029,7 +1089,7 @@ class C04(core.Check):
             else:
                 k = fr.get("scramble")
                 f = [1, rec["cols"], rec["rows"], rec["rows"] + (1 if fr.get("badrows") else 0), -1 if k is None else k,
-                     1 if rec["same"] else 0]
+                     1 if rec["same"] else 0, 1 if fr.get("intr") is not None else 0]
                 cur = rec["cursor"]
                 f += [0] if cur is None else [1, cur[0], cur[1]]
                 content = rec["content"]
@@ -1279,14 +1339,15 @@ class C04(core.Check):
              ["spec", "white", "light red", 16],
              ["spec", "h200,blink", "h17", 256],
              ["spec", "h70,standout", "h3", 88],
-             ["spec", "yellow,strikethrough", "dark cyan", 16]]
+             ["spec", "yellow,strikethrough", "dark cyan", 16],
+             ["pal", "u"], ["pal", "h"], ["pal", "i"]]
     HTML_SAFE_ATTRS = [i for i, a in enumerate(ATTRS) if not (a and a[0] == "undef")]
 
     def gen_config(self, rng):
         enc = rng.choice(["utf-8", "utf-8", "utf-8", "ascii", "iso8859-1"])
         return {"enc": enc, "colors": rng.choice([1, 16, 88, 256, 2 ** 24]), "bib": rng.choice([0, 1]),
                 "bbb": rng.choice([0, 0, 1]), "bce": rng.choice([1, 1, 0]), "partial": 0,
-                "palette": PALETTE, "attrs": self.ATTRS}
+                "props_late": rng.choice([0, 0, 1]), "palette": PALETTE, "attrs": self.ATTRS}
 
     def gen_cells(self, rng, cols, enc, last_row_bias=False, zero_width_runs=True):
         """one canvas row as a list of (attr index, cs, text, width) cells filling exactly cols columns"""
@@ -1513,7 +1574,23 @@ class C04(core.Check):
             elif r < 0.75:
                 frames.append({"op": "clear", "scramble": rng.choice([None, 0, 1, 2])} if not partial else {"op": "clear"})
                 draw()
-            elif r < 0.85 and not partial:
+            elif r < 0.80 and not partial:
+                # SIGWINCH while a frame is being produced: the frame is abandoned; the redraw after the
+                # acknowledgement often has exactly the rows of the abandoned canvas
+                draw({"intr": rng.randrange(rows)})
+                abandoned = frames[-1]
+                if rng.random() < 0.3:
+                    draw()
+                frames.append({"op": "ack"})
+                if rng.random() < 0.7 and abandoned["canvas"][0] != "widget":
+                    f = dict(abandoned)
+                    f.pop("intr")
+                    f["cursor"] = self.gen_cursor(rng, cols, rows)
+                    frames.append(f)
+                    rws = [[list(r) for r in row] for row in f["canvas"][1]]
+                else:
+                    draw()
+            elif r < 0.87 and not partial:
                 frames.append({"op": "winch"})
                 if rng.random() < 0.3:
                     draw()              # resize not yet handled: must paint nothing
